@@ -26,6 +26,45 @@ func c07(c *Ctx) {
 	// "no address stays marked as owned by a pod that holds none": commit delivers or rolls back (shared rule)
 	c01R6(c)
 	c01R8(c)
+	c07R6(c)
+}
+
+// R6: the pool sync always looks at the surplus. The trimming half of
+// Manager.syncPool is not conditional on anything but the surplus itself: every
+// path through the function evaluates the test that guards Dispose (a capacity
+// check, an inhibit flag or an early exit in front of it would leave idle
+// addresses above the high watermark for ever).
+func c07R6(c *Ctx) {
+	p := c.P
+	c.Rule("C07.R6", "Manager.syncPool evaluates the surplus test (the condition guarding NetworkInterface.Dispose) on every path: trimming to the high watermark is not conditional on capacity or on the top-up half")
+	fn := p.Func(eniPkg, "Manager.syncPool")
+	disp := p.Method(eniPkg, "NetworkInterface", "Dispose")
+	if fn == nil || disp == nil {
+		c.Unres("C07.R6", "Manager.syncPool / NetworkInterface.Dispose", "not found")
+		return
+	}
+	n := 0
+	for _, cs := range p.CallsTo([]*FuncInfo{fn}, disp) {
+		if cs.Lit != nil {
+			continue
+		}
+		var guard *ast.IfStmt
+		for _, x := range pathTo(fn.Decl.Body, cs.Call) {
+			if is, ok := x.(*ast.IfStmt); ok && guard == nil && is.Body.Pos() <= cs.Call.Pos() && cs.Call.End() <= is.Body.End() {
+				guard = is
+			}
+		}
+		if guard == nil {
+			c.Undec("C07.R6", "syncPool: surplus test", p.Pos(cs.Call), fn.Key(), "Dispose stands under an if", "no enclosing test")
+			continue
+		}
+		n++
+		q := NewPathQuery(p, fn, nil)
+		w := q.Escapes(nil, nil, isExactly(guard.Cond), nil)
+		c.Check(w == nil, "C07.R6", "syncPool: every pass evaluates the surplus test", p.Pos(guard.Cond), fn.Key(),
+			"must-pass: entry → `"+exprString(guard.Cond)+"` → exit", "path: "+p.describePath(w))
+	}
+	c.Floor("C07.R6", "guarded Dispose calls in syncPool", 1, n)
 }
 
 // declReturns lists the return statements of the function body proper (not literals).
